@@ -90,7 +90,9 @@ def _role_of_line(fn: Fn, node, depth=0) -> List[tuple]:
         if f in POSITION_CALLS:
             return [("POSITION", f)]
         if f in ("str", "repr"):
-            return _role_of_line(fn, p, depth + 1)
+            return [("MESSAGE", "converted to text")]
+        if f == "format" and isinstance(p.func, ast.Attribute) and isinstance(p.func.value, ast.Constant) and isinstance(p.func.value.value, str):
+            return [("MESSAGE", "str.format argument")]
         if isinstance(p.func, ast.Attribute) and p.func.attr in ("add", "append", "discard", "remove", "count", "index", "setdefault",
                                                                  "get", "__contains__") and _local_container(fn, p.func.value):
             # remembered in / looked up in a container that lives for this run() only: equality between line numbers of the
@@ -129,7 +131,12 @@ def _role_of_line(fn: Fn, node, depth=0) -> List[tuple]:
             return r
         return [("ABSOLUTE", f"`{text(p)}`: arithmetic on a line number")]
     if isinstance(p, (ast.FormattedValue, ast.JoinedStr)):
-        return _role_of_line(fn, p, depth + 1)
+        # formatted into a piece of text: whatever is done with the text afterwards (joined, printed, stored as a message),
+        # the number itself is only shown
+        return [("MESSAGE", "formatted into a string")]
+    if isinstance(p, ast.BinOp) and isinstance(p.op, ast.Mod) and (p.right is node or (isinstance(p.right, ast.Tuple) and node in p.right.elts)) \
+            and isinstance(p.left, ast.Constant) and isinstance(p.left.value, str):
+        return [("MESSAGE", "%-formatted into a string")]
     if isinstance(p, ast.Assign) and p.value is node and any(isinstance(t, ast.Attribute) for t in p.targets):
         return [("STORE", text(p.targets[0]))]       # remembered in an attribute: its reads are line reads too (see _line_reads)
     if isinstance(p, ast.Assign) and p.value is node and len(p.targets) == 1 and isinstance(p.targets[0], ast.Name):
